@@ -22,6 +22,10 @@ func init() {
 }
 
 func runC19(w *World, r *Report) {
+	r.Rule("shiftwidth", "no shift by a constant count that is as large as its operand's type (the value would always be 0: bits lost before widening)", 1)
+	shiftWidthRule(w, r, "shiftwidth", func(fi *FuncInfo) bool { return fi.Pkg.Types.Name() == "ofbase" })
+	r.Rule("shadow", "no := in an inner scope re-declares a same-typed variable of the function that is read afterwards (or a named result): the value computed there would be lost", 1)
+	shadowRule(w, r, "shadow", func(fi *FuncInfo) bool { return fi.Pkg.Types.Name() == "ofbase" })
 	r.Rule("observers", "methods that formatting calls implicitly (String, Error, …) leave the value unchanged", 1)
 	observerRule(w, r, "observers", "ofbase")
 	r.Rule("noconsume", "the read accessors of the encoder and decoder (Bytes, Length, Offset, BaseOffset) hand their state to nothing that could change it: looking at what was written does not drain it", 1)
